@@ -284,12 +284,14 @@ def r5(run, db):
         saw = await_of_call(lp, step[0]) if step else []
         if saw:
             sp = saw[0].poll
+            # the loop's result: a tuple, or a (private) struct with the same components
             tup = [s for _, s in lp.aggregates(kind="tuple") if len(s["rv"]["ops"]) == 4]
+            tup += [s for _, s in lp.aggregates() if s["rv"].get("kind") == "adt" and len(s["rv"].get("ops", [])) >= 3 and (s["rv"].get("adt") or "").startswith("ractor::") and s["rv"].get("variant") == (s["rv"].get("adt") or "").split("::")[-1]]
             okflag = False
             for s in tup:
                 for o in s["rv"]["ops"]:
                     p = op_place(o)
-                    if p and lp.local_ty(p[0]) == "bool":
+                    if p and (lp.local_ty(p[0]) == "bool" or p[1]):
                         rts = lp.origins(o, through=THROUGH_TRY)
                         okflag = any(r["k"] == "call" and r["call"].bb == sp.bb and any(e.endswith(":" + c03.loop_result_fields(db)["killed"][0]) for e in r["proj"] + r["trail"]) for r in rts)
             run.check(okflag, "%s|flag-origin" % rt, "the bool returned by the loop is the step result's `was_killed` field", "the loop's bool does not originate from the step's was_killed", lp.where())
